@@ -136,7 +136,7 @@ func writeModule(in *Input, dir string) error {
 	var tb strings.Builder
 	tb.WriteString("package target\n\n")
 	tb.WriteString(importsSrc(in, tused, "target"))
-	tb.WriteString("var _ " + in.OriginPkg + ".Inner\n\ntype LInner struct{ Z int }\n\n")
+	tb.WriteString("var _ " + in.OriginPkg + ".Inner\n\ntype LInner struct{ Z int }\n\ntype LIface interface{ M() string }\n\ntype LMap map[string]int\n\n")
 	for _, k := range locals {
 		ot := &in.Types[k]
 		if ot.NonStruct != "" {
